@@ -110,6 +110,8 @@ type loadSite struct {
 	store   ssa.CallInstruction // offsets.Store(key, &Offset{...})
 	table   map[string]string
 	latest  bool
+	keyP    *ssa.Parameter // the ranged vBucket id (by type: the callback may be a method value with a receiver in front)
+	docP    *ssa.Parameter // the ranged document
 }
 
 func findLoadSites(c *Ctx, id string, fn *ssa.Function) []*loadSite {
@@ -129,6 +131,14 @@ func findLoadSites(c *Ctx, id string, fn *ssa.Function) []*loadSite {
 			return
 		}
 		ls := &loadSite{closure: cl, rng: in.(ssa.CallInstruction)}
+		for _, prm := range cl.Params {
+			if isUint16(prm.Type()) {
+				ls.keyP = prm
+			}
+			if recvTypeName(prm.Type()) == "CheckpointDocument" {
+				ls.docP = prm
+			}
+		}
 		allInstrs(cl, func(in2 ssa.Instruction) {
 			cc2 := callOf(in2)
 			if m2, r2 := csmapMethod(cc2); m2 == "Store" && w.isOffsetMap(r2.Type()) {
@@ -174,7 +184,7 @@ func c02r2(c *Ctx, id string) {
 			continue
 		}
 		c.see(sv)
-		vp := "param(" + sd.closure.Params[1].Name() + ")."
+		vp := "param(" + sd.valName() + ")."
 		saveT := map[string]string{} // doc path -> offset path
 		for dp, org := range sd.table {
 			if rest, ok := strings.CutPrefix(org, vp); ok {
@@ -185,10 +195,10 @@ func c02r2(c *Ctx, id string) {
 		for _, ld := range loads {
 			c.see(ld)
 			for _, ls := range findLoadSites(c, id, ld) {
-				if ls.table == nil || ls.latest || len(ls.closure.Params) < 2 {
+				if ls.table == nil || ls.latest || ls.docP == nil {
 					continue
 				}
-				dp := "param(" + ls.closure.Params[1].Name() + ")."
+				dp := "param(" + ls.docP.Name() + ")."
 				loadT := map[string]string{} // offset path -> doc path
 				for op, org := range ls.table {
 					if rest, ok := strings.CutPrefix(org, dp); ok {
@@ -242,6 +252,25 @@ func c02r2(c *Ctx, id string) {
 		c.OK(id, "docmutate:none", 0, "%d stores to checkpoint-document fields, all of them literal initialisations", scanned)
 	}
 	c.Floor(id, 6)
+}
+
+// idTerm: the provenance of a document id, with the vBucket id it is derived from — a uint16 input of the function or
+// of an enclosing one, alone or as a field of a parameter bundle — written as param(vbID) whatever its name is.
+func idTerm(w *World, fn *ssa.Function, id ssa.Value) string {
+	org := w.Origin(id)
+	call, ok := resolveCell(id).(*ssa.Call)
+	if !ok || len(call.Common().Args) == 0 {
+		return org
+	}
+	a0 := w.Origin(call.Common().Args[0])
+	for g := fn; g != nil; g = g.Parent() {
+		for _, v := range vparams(g) {
+			if v.Term() == a0 && isUint16(v.Type()) {
+				return strings.Replace(org, "("+a0+",", "(param(vbID),", 1)
+			}
+		}
+	}
+	return org
 }
 
 func c02r3(c *Ctx, id string) {
@@ -322,11 +351,11 @@ func c02r3(c *Ctx, id string) {
 				}
 			}
 			if isStaticCall(cc, "/couchbase", "", "UpsertXattrs") {
-				wIDs = append(wIDs, w.Origin(argByName(cc, "id")))
+				wIDs = append(wIDs, idTerm(w, fn, argByName(cc, "id")))
 				wPaths = append(wPaths, w.Origin(argByName(cc, "path")))
 			}
 			if isStaticCall(cc, "/couchbase", "", "GetXattrs") {
-				rIDs = append(rIDs, w.Origin(argByName(cc, "id")))
+				rIDs = append(rIDs, idTerm(w, fn, argByName(cc, "id")))
 				rPaths = append(rPaths, w.Origin(argByName(cc, "path")))
 			}
 		})
@@ -491,9 +520,9 @@ func c02r4(c *Ctx, id string) {
 			lo := latest.table["LatestSeqNo"]
 			c.Check(strings.HasPrefix(lo, "call((*stream/offset.OffsetLatestSeqNoInit).InitializeLatestSeqNo)(") && strings.HasSuffix(lo, ", "+seq+")"), id, "latest:end@"+fname(ld), latest.store.Pos(), "LatestSeqNo ← "+lo, "LatestSeqNo ← "+lo+", expected InitializeLatestSeqNo(high seqNo)")
 		}
-		if normal.table != nil && len(normal.closure.Params) >= 2 {
+		if normal.table != nil && normal.keyP != nil {
 			key := w.Origin(normal.store.Common().Args[1])
-			c.Check(key == "param("+normal.closure.Params[0].Name()+")", id, "normal:key@"+fname(ld), normal.store.Pos(), "stored under the ranged key", "stored under "+key)
+			c.Check(key == "param("+normal.keyP.Name()+")", id, "normal:key@"+fname(ld), normal.store.Pos(), "stored under the ranged key", "stored under "+key)
 			lo := normal.table["LatestSeqNo"]
 			hs := "call((*wrapper.ConcurrentSwissMap[K, V]).Load)(call(recv.client.GetVBucketSeqNos)(const(false))#0, " + key + ")#0"
 			c.Check(lo == "call((*stream/offset.OffsetLatestSeqNoInit).InitializeLatestSeqNo)(recv.offsetLatestSeqNoInit, "+hs+")", id, "normal:end@"+fname(ld), normal.store.Pos(), "LatestSeqNo ← "+lo, "LatestSeqNo ← "+lo+", expected InitializeLatestSeqNo(vBucket high seqNo of the same key)")
